@@ -113,8 +113,10 @@ func (w *Watcher) Run(r *runner.TaskRunner) (err error) {
 		}
 	}
 
+	// every run gets its own copy of the task, so concurrent runs never share results
+	t := *w.task
 	go func() {
-		err := w.r.Run(w.task)
+		err := w.r.Run(&t)
 		if err != nil {
 			logrus.Error(err)
 		}
@@ -184,7 +186,6 @@ func (w *Watcher) handle(event fsnotify.Event) {
 		return
 	}
 
-	w.r.Cancel()
 	logrus.Debugf("running task \"%s\" for watcher \"%s\"", w.task.Name, w.name)
 
 	t := *w.task
